@@ -16,11 +16,17 @@ object was forwarded):
   `get_model_matrix`'s first lines (`ModelSpec.from_spec(spec, context=self.layered_context, **spec_overrides)`,
   `_prepare_model_specs`) (materializers/base.py).
 
-Parameters (not modelled): `for_data(data)` — the harness supplies the registered name it returns
-for the data at hand; the registry (`REGISTER_NAME → REGISTER_OUTPUTS`) and the `NAAction` values are
-the GENERATED tables `Gen.materializerOutputs` / `Gen.naActions`. Formulas, data, context mappings,
-`drop_rows` sets and materializer params are opaque identities. A structured spec is modelled as its
-list of `(key, leaf)` in `_flatten` order. Frame capture (`context=<int>`) is not modelled. Core Lean only. -/
+`for_data(data)` enters as `Call.dataMat` (the name of the class it returns, `none` when it raises):
+`Model/Dispatch.lean` computes it with the registry model (`Model/Registry.lean`) from what
+`for_data` itself reads of the data, and builds `Env.registry` (`REGISTER_NAME → REGISTER_OUTPUTS`) from
+the registry as well; the enum values, the layers of a materializer's context and the defaults of
+`ModelSpec` are compared with GENERATED tables in `Props/C05.lean` (`model_constants_are_live`).
+A value given for `materializer=` may be a name, a materializer class, an instance or anything else
+(`MatArg`); `__post_init__` turns it into a name. After `_prepare_model_specs` the leaves of one
+request must agree on output / null policy / rank setting (`consistent`, else `RuntimeError`).
+Formulas, data, context mappings, `drop_rows` sets and materializer params are opaque identities. A
+structured spec is modelled as its list of `(key, leaf)` in `_flatten` order. Frame capture
+(`context=<int>`) is not modelled. Core Lean only. -/
 namespace FormulaicVerif.Model.EntryPoints
 
 inductive Err
@@ -28,15 +34,38 @@ inductive Err
   | valueError        -- `NAAction(x)` / `ClusterBy(x)` of an unknown value
   | notFound          -- FormulaMaterializerNotFoundError
   | materialization   -- FormulaMaterializationError (output not offered by the materializer)
+  | invalid           -- FormulaMaterializerInvalidError (`materializer=` neither a name, a materializer nor a materializer class)
+  | runtime           -- RuntimeError (the leaves of one joint request disagree on output / na_action / ensure_full_rank)
 deriving DecidableEq, Repr
 
 def Err.name : Err → String
   | .typeError => "TypeError" | .valueError => "ValueError"
   | .notFound => "FormulaMaterializerNotFoundError" | .materialization => "FormulaMaterializationError"
+  | .invalid => "FormulaMaterializerInvalidError"
+  | .runtime => "RuntimeError"
+
+/-- a value given for `materializer=` -/
+inductive MatArg
+  | none                              -- `None`
+  | name (s : String)                 -- a `str`: stored as it is (looked up only when a materializer is needed)
+  | cls (regName : Option String)     -- a `FormulaMaterializer` subclass whose `REGISTER_NAME` is `regName`
+  | inst (regName : Option String)    -- a `FormulaMaterializer` instance of such a class
+  | other                             -- anything else
+deriving DecidableEq, Repr
+
+/-- `ModelSpec.__post_init__` on the `materializer` field: a non-string is replaced by
+`FormulaMaterializer.for_materializer(x).REGISTER_NAME` (which is `None` for a class that does not
+register itself, so that such a class is silently forgotten) -/
+def MatArg.normalise : MatArg → Except Err (Option String)
+  | .none => .ok Option.none
+  | .name s => .ok (some s)
+  | .cls n => .ok n
+  | .inst n => .ok n
+  | .other => .error .invalid
 
 /-- one keyword of `**spec_overrides` / `**attrs` -/
 inductive Attr
-  | materializer (m : Option String)
+  | materializer (m : MatArg)
   | params (p : Option Nat)
   | efr (b : Bool)
   | na (s : String)
@@ -68,8 +97,19 @@ structure Env where
   On the pinned tree it does not (`materializer(...).get_model_matrix(self)`). -/
   fwdJoint : Bool := false
 
+def Attr.isUnknown : Attr → Bool
+  | .unknown _ => true
+  | _ => false
+
+/-- one field assignment. The `materializer` field is normalised here although Python does it in
+`__post_init__`, after ALL fields are assigned: the only exception an assignment can raise before
+that is the `TypeError` of an unknown keyword, which `setAttrs` raises first, and `__post_init__`
+converts the materializer before it looks at `na_action` / `cluster_by` -/
 def setAttr (ms : MSpec) : Attr → Except Err MSpec
-  | .materializer m => .ok { ms with materializer := m }
+  | .materializer m =>
+    match m.normalise with
+    | .error e => .error e
+    | .ok n => .ok { ms with materializer := n }
   | .params p => .ok { ms with params := p }
   | .efr b => .ok { ms with efr := b }
   | .na s => .ok { ms with na := s }
@@ -77,12 +117,17 @@ def setAttr (ms : MSpec) : Attr → Except Err MSpec
   | .cluster s => .ok { ms with cluster := s }
   | .unknown _ => .error .typeError
 
-def setAttrs (ms : MSpec) : List Attr → Except Err MSpec
+def setAttrsFrom (ms : MSpec) : List Attr → Except Err MSpec
   | [] => .ok ms
   | a :: r =>
     match setAttr ms a with
     | .error e => .error e
-    | .ok ms' => setAttrs ms' r
+    | .ok ms' => setAttrsFrom ms' r
+
+/-- `ModelSpec(**attrs)` / `dataclasses.replace(ms, **attrs)` up to `__init__`: an unknown keyword is a
+`TypeError` before anything is assigned -/
+def setAttrs (ms : MSpec) (attrs : List Attr) : Except Err MSpec :=
+  if attrs.any Attr.isUnknown then .error .typeError else setAttrsFrom ms attrs
 
 /-- `ModelSpec.__post_init__`: `NAAction(self.na_action)`, then `ClusterBy(self.cluster_by)`
 (a materializer given by NAME is not checked here) -/
@@ -199,8 +244,19 @@ def prepareLeaf (inst : Inst) (ms : MSpec) : Except Err MSpec :=
     if inst.outputs.contains o then .ok { ms with materializer := some inst.name, params := inst.params }
     else .error .materialization
 
+/-- `len(set(xs))` -/
+def distinctCount {α} [BEq α] (xs : List α) : Nat := xs.eraseDups.length
+
+/-- `_prepare_factor_evaluation_model_spec`: the factors of all leaves are evaluated ONCE, under one
+output type, one null policy and one rank setting: `len(output) != 1 or len(na_action) != 1 or
+len(ensure_full_rank) != 1` is a `RuntimeError` (also for a structured spec without leaves) -/
+def consistent (specs : List (String × MSpec)) : Bool :=
+  distinctCount (specs.map (·.2.output)) == 1 && distinctCount (specs.map (·.2.na)) == 1 &&
+  distinctCount (specs.map (·.2.efr)) == 1
+
 /-- `FormulaMaterializer.get_model_matrix(self, spec, drop_rows, **spec_overrides)` up to and including
-`_prepare_model_specs`: the request that the materialisation proper works on -/
+`_prepare_model_specs` and the consistency check of `_prepare_factor_evaluation_model_spec`: the
+request that the materialisation proper works on -/
 def materializerGMM (env : Env) (inst : Inst) (spec : SpecArg) (dropRows : Option Nat) (ov : List Attr) :
     Except Err Request :=
   match fromSpec env spec ov with
@@ -212,7 +268,8 @@ def materializerGMM (env : Env) (inst : Inst) (spec : SpecArg) (dropRows : Optio
     match mapParts (prepareLeaf inst) leaves with
     | .error e => .error e
     | .ok specs =>
-      .ok ⟨inst.name, inst.data, inst.context, ["data", "context", "transforms"], inst.params, specs, simplify, dropRows⟩
+      if !consistent specs then .error .runtime
+      else .ok ⟨inst.name, inst.data, inst.context, ["data", "context", "transforms"], inst.params, specs, simplify, dropRows⟩
 
 /-- `ModelSpec.get_model_matrix(data, context, drop_rows, **attr_overrides)` -/
 def modelSpecGMM (env : Env) (c : Call) (ms : MSpec) (dropRows : Option Nat) (ov : List Attr) : Except Err Request :=
